@@ -42,6 +42,10 @@ pub struct Parts {
     pub cert_sig: Vec<u8>,
     pub dele: Msg,
     pub indx: Vec<u8>,
+    /// additional (unsigned) tags placed in the CERT container next to SIG and DELE
+    pub cert_extra: Vec<(&'static str, Vec<u8>)>,
+    /// additional (unsigned) tags placed at the top level of the reply
+    pub top_extra: Vec<(&'static str, Vec<u8>)>,
 }
 
 impl Parts {
@@ -52,7 +56,9 @@ impl Parts {
         self.dele.encode()
     }
     pub fn cert_bytes(&self) -> Vec<u8> {
-        Msg::from_pairs(&[("SIG", self.cert_sig.clone()), ("DELE", self.dele_bytes())]).encode()
+        let mut pairs: Vec<(&str, Vec<u8>)> = vec![("SIG", self.cert_sig.clone()), ("DELE", self.dele_bytes())];
+        pairs.extend(self.cert_extra.iter().cloned());
+        Msg::from_pairs(&pairs).encode()
     }
     pub fn sign_srep(&mut self, v: Version, online_seed: &[u8; 32]) {
         let mut m = v.srep_ctx().to_vec();
@@ -65,15 +71,16 @@ impl Parts {
         self.cert_sig = crypto::sign(lt_seed, &m).to_vec();
     }
     pub fn payload(&self) -> Vec<u8> {
-        Msg::from_pairs(&[
+        let mut pairs: Vec<(&str, Vec<u8>)> = vec![
             ("SIG", self.sig.clone()),
             ("NONC", self.nonce.clone()),
             ("PATH", self.path.clone()),
             ("SREP", self.srep_bytes()),
             ("CERT", self.cert_bytes()),
             ("INDX", self.indx.clone()),
-        ])
-        .encode()
+        ];
+        pairs.extend(self.top_extra.iter().cloned());
+        Msg::from_pairs(&pairs).encode()
     }
     /// The datagram: framed for IETF, bare for classic (according to self.v).
     pub fn datagram(&self) -> Vec<u8> {
@@ -142,6 +149,8 @@ pub fn honest_parts(v: Version, id: &Identity, batch: &[Vec<u8>], i: usize, st: 
         cert_sig: vec![],
         dele,
         indx: (i as u32).to_le_bytes().to_vec(),
+        cert_extra: vec![],
+        top_extra: vec![],
     };
     p.sign_srep(v, &id.online_seed);
     p.sign_dele(v, &id.lt_seed);
